@@ -7,6 +7,7 @@
   triggered flush, the closed batches) alongside.
 -/
 import ClientGoVerif.Proofs.Pipelined
+import ClientGoVerif.Proofs.PipelinedStore
 namespace CGV.Props.C16
 open CGV CGV.Pipelined
 
@@ -113,36 +114,129 @@ example : (doFlushWait (run (init {}) [.set [1] [2], .flush true 0 { res := .ok,
       .flushDone { res := .err, applied := 0, kind := .keyExist [1] }]) { res := .ok, applied := 0 }).1.lastErr
     = some (.keyExist [1] (some [2])) := by decide
 
+/-- a flush error is never lost, for every op sequence and every interleaving of flush completions: once a flush
+    function has failed (`errCh = some .err` after `ops1`), whatever the caller does next (`ops2`: writes, reads, staging,
+    further `Flush`/`FlushWait` calls, any thresholds and observed memory sizes), either one of those calls has returned
+    the error to the caller, or it is still pending and Commit fails -/
+theorem flush_error_never_lost (cfg : Cfg) (ops1 ops2 : List Op) (mem : Nat) (l1 l2 : Completion)
+    (he : (run (init cfg) ops1).errCh = some .err) :
+    .errFlush ∈ runOuts (run (init cfg) ops1) ops2 ∨
+    commitOk (run (run (init cfg) ops1) ops2) mem l1 l2 = false := by
+  have h := inv2_run (sp := {}) ops1 (inv2_init cfg)
+  rw [runBoth_fst] at h
+  rcases err_never_lost ops2 h he with h1 | h1
+  · exact Or.inl h1
+  · right
+    rw [← run_append] at h1 ⊢
+    exact (flush_error_fails_txn cfg (ops1 ++ ops2) mem l1 l2 h1).1
+
 /-- FULL sticky statement (callback layer of InitPipelinedMemDB): once a flush function has failed, no later Commit
-    succeeds, whatever the caller does in between.  FALSE for the code as it stands: `committer.close()` only moves the
-    TTL manager running → closed, so when the failing flush is the one that should have started it (primary batch not
-    flushed yet) the callback keeps flushing — see `flush_error_sticky_false`.  (The error is still returned once
-    — `flush_error_fails_txn` — and a real store refuses to commit a primary that was never locked.) -/
+    gets past the buffer, whatever the caller does in between.  FALSE for the code as it stands, and what is missing is
+    exactly this: `committer.close()` only moves the TTL manager running → closed, so a failure BEFORE the TTL manager was
+    started (no batch holding the primary has been flushed successfully yet) leaves the callback willing to flush; if the
+    caller ignores the error it was handed (`flush_error_never_lost`) and later flushes the primary successfully, Commit
+    passes although the failed batch is lost — `flush_error_sticky_false`.  Everything short of that is proved:
+    `flush_error_sticky_partial` (failure after the TTL manager was started: sticky), `flush_error_outcomes`
+    (failure before: the caller was told, and while the TTL manager is still not started the primary holds no lock in
+    the store, so the store refuses the commit — `unstarted_commit_rejected_by_store`). -/
 def flush_error_sticky : Prop :=
   ∀ (cfg : Cfg) (ops1 ops2 : List Op) (mem : Nat) (l1 l2 : Completion), cfg.layer = true →
     (run (init cfg) ops1).errCh = some .err → commitOk (run (run (init cfg) ops1) ops2) mem l1 l2 = false
 
+/-- the failing flush is the first one; the caller ignores the error FlushWait returns, rewrites the primary and
+    flushes it successfully; Commit passes -/
 theorem flush_error_sticky_false : ¬ flush_error_sticky := by
   intro h
-  have := h { layer := true } [.set [1] [2], .flush true 0 { res := .ok, applied := 0 }, .flushDone { res := .err, applied := 0 }] [.flushWait { res := .ok, applied := 0 }] 0 { res := .ok, applied := 0 } { res := .ok, applied := 0 }
-    rfl (by decide)
+  have := h { layer := true }
+    [.set [1] [2], .set [5] [6], .flush true 0 { res := .ok, applied := 0 }, .flushDone { res := .err, applied := 0 }]
+    [.flushWait { res := .ok, applied := 0 }, .set [1] [3], .flush true 0 { res := .ok, applied := 0 },
+     .flushDone { res := .ok, applied := 0 }]
+    0 { res := .ok, applied := 0 } { res := .ok, applied := 0 } rfl (by decide)
   revert this
   decide
 
-/-- PROVED PART: once the TTL manager is closed (a flush failed after the primary had been flushed, see
-    `failing_flush_closes_running_ttl`), every later Commit fails, whatever happens in between -/
-theorem flush_error_sticky_partial (cfg : Cfg) (ops1 ops2 : List Op) (mem : Nat) (l1 l2 : Completion)
-    (hl : cfg.layer = true) (hc : (run (init cfg) ops1).ttl = .closed) :
-    commitOk (run (run (init cfg) ops1) ops2) mem l1 l2 = false :=
-  commit_fails_closed (by rw [run_cfg, run_cfg]; exact hl) (run_ttl_closed _ ops2 hc) mem l1 l2
+/-- PROVED PART 1 (hypothesis: the TTL manager had been started when the flush function failed — `ttl ≠ uninit`, which
+    `ttl_started_by_primary_flush` / `ttl_started_stable` reduce to "a batch holding the primary was flushed successfully
+    earlier"): for every op sequence before (`ops1`, ending with a running flush), every failing completion `c` and
+    every op sequence after (`ops2`), Commit fails -/
+theorem flush_error_sticky_partial (cfg : Cfg) (ops1 ops2 : List Op) (c : Completion) (mem : Nat) (l1 l2 : Completion)
+    (hl : cfg.layer = true) (hr : (run (init cfg) ops1).running = true) (ht : (run (init cfg) ops1).ttl ≠ .uninit)
+    (hc : c.res = .err) :
+    commitOk (run (run (init cfg) (ops1 ++ [.flushDone c])) ops2) mem l1 l2 = false := by
+  have h := inv2_run (sp := {}) ops1 (inv2_init cfg)
+  rw [runBoth_fst] at h
+  have hfs := h.runFl hr
+  cases hf : (run (init cfg) ops1).flushing with
+  | none => simp [hf] at hfs
+  | some f =>
+    have hcl : (run (init cfg) (ops1 ++ [.flushDone c])).ttl = .closed := by
+      rw [run_append]
+      simp only [run, step, hr, if_true]
+      exact (complete_err_closed_iff c (by rw [run_cfg]; exact hl) hf hc).mpr ht
+    exact commit_fails_closed (by rw [run_cfg, run_cfg]; exact hl) (run_ttl_closed _ ops2 hcl) mem l1 l2
 
-example : (run (init { layer := true }) [.set [1] [2], .flush true 0 { res := .ok, applied := 0 }, .flushDone { res := .ok, applied := 0 }, .set [3] [4],
-    .flush true 0 { res := .ok, applied := 0 }, .flushDone { res := .err, applied := 0 }]).ttl = .closed := by decide
+example : (run (init { layer := true }) [.set [1] [2], .flush true 0 { res := .ok, applied := 0 }, .flushDone { res := .ok, applied := 0 },
+    .set [3] [4], .flush true 0 { res := .ok, applied := 0 }]).running = true ∧
+    (run (init { layer := true }) [.set [1] [2], .flush true 0 { res := .ok, applied := 0 }, .flushDone { res := .ok, applied := 0 },
+    .set [3] [4], .flush true 0 { res := .ok, applied := 0 }]).ttl ≠ .uninit := by decide
 
-/-- a flush function that fails while the TTL manager is running closes it -/
-theorem failing_flush_closes_running_ttl (s : PState) (f : Buf) (c : Completion) (hl : s.cfg.layer = true)
-    (ht : s.ttl = .running) (hf : s.flushing = some f) (hc : c.res = .err) : (complete s c).ttl = .closed :=
-  complete_err_closes c hl ht hf hc
+/-- the successful flush of a batch that holds the primary starts the TTL manager … -/
+theorem ttl_started_by_primary_flush (s : PState) (f : Buf) (c : Completion) (hl : s.cfg.layer = true)
+    (hf : s.flushing = some f) (hc : c.res = .ok) (hp : f.keys.contains s.primary = true) :
+    (complete s c).ttl ≠ .uninit :=
+  complete_ok_starts c hl hf hc hp
+
+/-- … and it never goes back to "not started" -/
+theorem ttl_started_stable (s : PState) (ops : List Op) (h : s.ttl ≠ .uninit) : (run s ops).ttl ≠ .uninit :=
+  run_ttl_started s ops h
+
+/-- a failing flush function closes the TTL manager exactly when it had been started -/
+theorem failing_flush_closes_started_ttl (s : PState) (f : Buf) (c : Completion) (hl : s.cfg.layer = true)
+    (hf : s.flushing = some f) (hc : c.res = .err) : (complete s c).ttl = .closed ↔ s.ttl ≠ .uninit :=
+  complete_err_closed_iff c hl hf hc
+
+/-- PROVED PART 2: for EVERY op sequence, flush timing and failure (callback layer): if Commit gets past the buffer
+    after a flush failure, then (i) the error has been returned to the caller by an earlier call, (ii) the TTL manager
+    is not closed, and (iii) if it is still not started, the primary holds no lock in the store -/
+theorem flush_error_outcomes (cfg : Cfg) (ops1 ops2 : List Op) (mem : Nat) (l1 l2 : Completion)
+    (hl : cfg.layer = true) (he : (run (init cfg) ops1).errCh = some .err)
+    (hok : commitOk (run (run (init cfg) ops1) ops2) mem l1 l2 = true) :
+    .errFlush ∈ runOuts (run (init cfg) ops1) ops2 ∧
+    (run (run (init cfg) ops1) ops2).ttl ≠ .closed ∧
+    ((run (run (init cfg) ops1) ops2).ttl = .uninit →
+      (run (run (init cfg) ops1) ops2).store.get (run (run (init cfg) ops1) ops2).primary = none) := by
+  refine ⟨?_, ?_, ?_⟩
+  · rcases flush_error_never_lost cfg ops1 ops2 mem l1 l2 he with h | h
+    · exact h
+    · rw [hok] at h; cases h
+  · intro hc
+    have := commit_fails_closed (s := run (run (init cfg) ops1) ops2) (by rw [run_cfg, run_cfg]; exact hl) hc mem l1 l2
+    rw [hok] at this; cases this
+  · have h3 := inv3_run (init cfg) (ops1 ++ ops2) hl (inv3_init cfg)
+    rw [run_append] at h3
+    exact h3.unlocked
+
+/-- while the TTL manager has not been started the primary holds no lock in the store — for every op sequence -/
+theorem unstarted_primary_unlocked (cfg : Cfg) (ops : List Op) (hl : cfg.layer = true)
+    (hu : (run (init cfg) ops).ttl = .uninit) :
+    (run (init cfg) ops).store.get (run (init cfg) ops).primary = none :=
+  (inv3_run (init cfg) ops hl (inv3_init cfg)).unlocked hu
+
+/-- … and the MVCC store (Model/Mvcc.lean, `Mvcc.commit`) then refuses to commit the primary: for any store whose locks
+    of transaction `T` are among the keys the buffer has flushed successfully (`store` tier) and on which `T` has no
+    record on the primary yet, the commit of the primary returns `retryable` ("txn not found") and changes nothing -/
+theorem unstarted_commit_rejected_by_store (cfg : Cfg) (ops : List Op) (hl : cfg.layer = true)
+    (hu : (run (init cfg) ops).ttl = .uninit) (ms : Mvcc.Store) (T C : Nat)
+    (habs : ∀ k, lockedBy ms T k → (run (init cfg) ops).store.get k ≠ none)
+    (hfresh : Mvcc.Fresh (Mvcc.getEntry ms.kv (run (init cfg) ops).primary).writes T) :
+    (Mvcc.commit ms [(run (init cfg) ops).primary] T C).2 = some .retryable ∧
+    (Mvcc.commit ms [(run (init cfg) ops).primary] T C).1.kv = ms.kv := by
+  apply commit_unlocked_rejected ms _ T C _ hfresh
+  intro l hlk heq
+  exact habs _ ⟨l, hlk, heq⟩ (unstarted_primary_unlocked cfg ops hl hu)
+
+example : (run (init { layer := true }) [.set [1] [2], .flush true 0 { res := .ok, applied := 0 },
+    .flushDone { res := .err, applied := 0 }]).ttl = .uninit := by decide
 
 /-! ## the range handed to the range task -/
 
